@@ -615,7 +615,7 @@ func judgeC19FS(c c19Case) (v core.Verdict) {
 
 func TestC19(t *testing.T) {
 	core.Run(t, "C19",
-		"(a) InMemLoader histories of Set/Delete/Exists/Open under generated spellings (./ ../ // trailing slash, with and without leading slash) against a map keyed by an independent normaliser; (b) OS/http/embed loaders over generated trees (embed: a fixed tree below testdata/ and a package that embeds its own directory, root '.', with dot files and a dot directory at the top level) queried with every clean absolute path of the universe (files, directories, missing siblings, paths below files, root); (c) multi stacks of 1-4 such loaders with overlapping contents and AddLoaders mid-history, plus two in-memory layers between which a path moves after Exists has answered and before Open is asked; non-trivial = a query spelt differently from the spelling used to store, or naming a directory, or answered by a later loader of a stack",
+		"(a) InMemLoader histories of Set/Delete/Exists/Open (run under a deadlock watchdog) under generated spellings (./ ../ // trailing slash, with and without leading slash) against a map keyed by an independent normaliser; (b) OS/http/embed loaders over generated trees (embed: a fixed tree below testdata/ and a package that embeds its own directory, root '.', with dot files and a dot directory at the top level) queried with every clean absolute path of the universe (files, directories, missing siblings, paths below files, root); (c) multi stacks of 1-4 such loaders with overlapping contents and AddLoaders mid-history, sibling stacks built from one slice with spare capacity, plus two in-memory layers between which a path moves after Exists has answered and before Open is asked; non-trivial = a query spelt differently from the spelling used to store, or naming a directory, or answered by a later loader of a stack",
 		genC19, judgeC19)
 }
 
